@@ -27,6 +27,7 @@ RULE = (
     "fixed script. Non-trivial = class overriding >= 2 methods on a forest with a node that has >= 2 children."
     ' Also: cachedsearch calls among the compared queries.'
     " Also: more '**'/'..' glob patterns, SymlinkNodes pointing at generated nodes."
+    ' Round 12: importers with the adversarial class as nodecls.'
 )
 ASSUMPTIONS = [
     "the harness itself touches nodes only through 'is', id() and attribute access, so every counted invocation comes from the library",
